@@ -389,6 +389,16 @@ def run(ctx, rep, tier="quick"):
                     f"{n} use(s)", f"`{tgt}` is a mode sign but is not used as a factor of a metric-valued expression (it is not a factor at all, or the other "
                     f"factor can be a fixed sentinel such as inf / a dict.get default, which does not flip with the metrics): " +
                     ", ".join(f"{g.short}:{x.lineno}" for g, x in bad[:3]))
+    # the statistics the two modes read (running minimum / maximum per metric) are maintained as a dual pair
+    ms = ctx.P.method("MetricsStatistics", "add")
+    upd = {}
+    for x in walk_shallow(ms.node):
+        if isinstance(x, ast.Assign) and isinstance(x.targets[0], ast.Subscript) and U(x.targets[0].value) in ("self.min_metrics", "self.max_metrics"):
+            upd[U(x.targets[0].value)] = x
+    okd = len(upd) == 2 and parity.arms_are_dual([upd["self.min_metrics"]], [upd["self.max_metrics"]], odd=odd)
+    rep.put(okd, "S1", "parity", "MetricsStatistics.add: the running minimum and the running maximum are mirror images", ms,
+            upd.get("self.max_metrics"), "", "the running maximum is not the mirror image of the running minimum (start value, operator or operands): "
+            "the best value found under mode 'max' on negated metrics is not the negated best value under mode 'min'")
     # SIGN consumers whose comparison direction matters
     P = ctx.P
     r = P.method("Rung", "__init__")
